@@ -304,3 +304,23 @@ PROPS["C10"] = {
     "uncovered": ["global state not reached by the prelude kinds", "multi-threaded use (OpenMP paths run with one thread)", "objects other than Db / Model / KrigingCalcul / NeighMoving for copy and incremental checks"],
     "assumptions": [],
 }
+
+PROPS["C03"] = {
+    "module": "GstProofs.Props.C03",
+    "theorems": [
+        "GstProofs.C03.spherical_bounds", "GstProofs.C03.spherical_beyond", "GstProofs.C03.cubic_bounds",
+        "GstProofs.C03.triangle_bounds", "GstProofs.C03.wendland0_bounds", "GstProofs.C03.wendland1_bounds",
+        "GstProofs.C03.wendland2_bounds", "GstProofs.C03.penta_bounds", "GstProofs.C03.reg1d_bounds",
+        "GstProofs.C03.reg1d_beyond", "GstProofs.C03.redDist2_neg", "GstProofs.C03.rotation_preserves_norm",
+    ],
+    "harnesses": ["vh_c03"],
+    "level": "proof",
+    "technique": "Lean 4 theorems on the closed forms of the polynomial structures (for every reduced distance: |C(h)| <= C(0) = 1, compact support, no jump at the range), evenness of the reduced distance and its invariance under rotations (Mathlib matrices, any dimension); certificate checking for what is not provable in the model: positive semi-definiteness of the library's covariance matrix of generated point sets is decided by an exact rational LDLt, closed forms are compared with the library (rational polynomials exactly, exp through proved-style alternating-series enclosures)",
+    "level_text": "Partial proof: boundedness / support / continuity of 8 polynomial structures are theorems for all distances; positive definiteness for ALL point sets (Bochner) is not a theorem here - it is certified per generated instance by exact arithmetic (all structures offered by the factory in 1-3 D, anisotropy + rotation, 1-2 variables with positive semi-definite sills, conditional definiteness on first-order increments for LINEAR / ORDER1_GC / POWER); transcendental structures other than exponential and Gaussian have no closed-form comparison.",
+    "level_note": "Trusted: Lean kernel + 3 standard axioms; the LDLt certificate checker (exact rational, soundness = classical Schur-complement argument, not proved in Lean); alternating-series enclosure of exp; structures of order >= 1 (ORDER3_GC, ORDER5_GC, SPLINE_GC, SPLINE2_GC) are not certified.",
+    "rule": "every ECov offered by CovFactory in dimension 1, 2, 3 x 4 (quick) / 60 (thorough) repetitions: 6 closed-form probes along the first axis (unit sill, random range and parameter); one anisotropic rotated 1-2 variable model: 4 symmetry / bound / variogram-form probes and one 4-9 point covariance (or increment) matrix certified PSD with tau = 2^-36 of its scale. distinct = distinct request line",
+    "trivial": lambda line: False,
+    "trusted_base": TB_COMMON + ["exact LDLt certificate checker", "rational enclosure of exp"],
+    "uncovered": ["positive definiteness for all point sets (only certified instances)", "generalised covariances of order >= 1", "Matern / Bessel / Gamma / Stable / Cauchy / Storkey / sine cardinal values (no rational closed form in the model)", "covariances on the sphere", "non-stationary models"],
+    "assumptions": [],
+}
